@@ -19,6 +19,9 @@ import (
 )
 
 func init() {
+	mutant(&Mutant{Name: "c17-colour-table-bytes-rewritten-in-place", Property: "C17", File: "css/css.go",
+		Old: "\t\t\tvalue.TokenType = css.HashToken\n\t\t\tvalue.Data = hexValue\n", New: "\t\t\tvalue.TokenType = css.HashToken\n\t\t\tvalue.Data = hexValue\n\t\t\tdata = hexValue\n\t\t\tparse.ToLower(data[1:])\n",
+		Rule: "R17.tablestate", Construct: "css.ShortenColorName passed to"})
 	mutant(&Mutant{Name: "c17-style-is-a-block", Property: "C17", File: "html/table.go",
 		Old: "\tStyle:      rawTag,", New: "\tStyle:      rawTag | blockTag,",
 		Rule: "R17.htmltraits", Construct: "html.tagMap[Style]"})
@@ -154,6 +157,11 @@ func (c *Ctx) loadHash(rule, rel string) *hashTable {
 			h.maxLen = int(i)
 			continue
 		}
+		// only the constants of the generated file (the one that declares the type): a marker value declared elsewhere
+		// (css.unknownFunction) is not a word of the table
+		if c.P.Fset.Position(k.Pos()).Filename != c.P.Fset.Position(hashType.Pos()).Filename {
+			continue
+		}
 		if !types.Identical(k.Type(), hashType.Type()) {
 			continue
 		}
@@ -181,6 +189,9 @@ func runC17(c *Ctx) {
 	c.ruleEntities()
 	c.ruleColors()
 	c.ruleColorKey()
+	// the tables stay what they are: no write through bytes that belong to a package-level table (R13.2, also for the
+	// elements of a table that is a map)
+	c.alsoUnder(map[string]string{"R13.2": "R17.tablestate"}, nil, func() { c.r132() })
 	c.ruleUnits()
 	c.ruleHTMLTraits()
 	c.ruleMimeAndSVG()
